@@ -3,6 +3,7 @@ package main
 import (
 	"encoding/json"
 	"fmt"
+	"strings"
 )
 
 func init() {
@@ -130,6 +131,11 @@ func checkC03(c *Ctx) {
 		compileBoth(c, fmt.Sprintf("w%d", i), p, src, Opts{}, &cases, &rejected)
 		if i%1500 == 7 {
 			c.Sample(map[string]interface{}{"family_member": f, "source": src})
+		}
+	}
+	for _, p := range bigPrograms() {
+		if strings.HasPrefix(p.Scripts[0].Name, "BigSwitch") {
+			compileBoth(c, p.Scripts[0].Name, p, RenderProg(p, Style{R: r}), Opts{}, &cases, &rejected)
 		}
 	}
 	st := RunRefine(c, cases, 6000, "switch does not select exactly the matching body", nil)
